@@ -338,6 +338,7 @@ class Interp:
                 k = p.fresh_int("ik")
                 p.assume(z3.And(z3.ToReal(k) <= e, e < z3.ToReal(k) + 1))
                 p.assume(z3.Implies(z3.And(z3.ToReal(k) == e, k < sym.TWO53), r == e))
+                p.float_facts.append(("fromstr", e, r))
                 return SNum(r, "float")
             return float(x)
 
